@@ -92,7 +92,7 @@ theorem g3_raiseSig (st : St) (s : Int) : G3 st (raiseSig st s) := by
   · split
     · exact G3.of_eq rfl rfl rfl rfl
     · split
-      · exact G3.of_eq rfl rfl rfl rfl
+      · unfold sigRecord; split <;> first | exact G3.of_eq rfl rfl rfl rfl | exact G3.refl _
       · split
         · exact G3.of_eq rfl rfl rfl rfl
         · exact G3.refl st
@@ -997,7 +997,9 @@ theorem g3_pollTimeout (st : St) (t : Option Int) : G3 st (pollTimeout st t) := 
   · exact G3.refl _
 
 
-theorem g3_deliverPending (st : St) : G3 st (deliverPending st) := G3.of_eq rfl rfl rfl rfl
+theorem g3_deliverPending (st : St) : G3 st (deliverPending st) := by
+  unfold deliverPending
+  split <;> exact G3.of_eq rfl rfl rfl rfl
 
 
 theorem g3_ppoll (st : St) (t : Option Int) : G3 st (ppoll st t).1 := by
